@@ -3,7 +3,7 @@ NEXT Next
 CONSTANTS
   FlatLen = 4
   Mode = "misc"
-  Small = FALSE
+  Small = TRUE
 INVARIANT Sane
 INVARIANT ImplSatisfiesProperty
 INVARIANT ImplShape
